@@ -186,12 +186,9 @@ def enterPrevoteWait (n : Node) (h r : Int) : Node :=
 
 /-- `defaultDecideProposal` -/
 def decideProposal (n : Node) (h r : Int) : Node :=
-  let (n, block) : Node × Name :=
-    match n.lockedBlock with
-    | some b => (n, b)
-    | none =>
-      let nm : Name := n.ownPrefix ++ (toString n.fresh).toUTF8.toList      -- "o<k>": own block
-      ({ n with fresh := n.fresh + 1, validTab := n.validTab ++ [(nm, n.height, true)] }, nm)
+  -- the block: the locked one, or a fresh own block (named only if it is actually proposed)
+  let own : Name := n.ownPrefix ++ (toString n.fresh).toUTF8.toList
+  let block : Name := match n.lockedBlock with | some b => b | none => own
   let pol := polInfo n
   let p : Proposal := ⟨h, r, block, pol.1, pol.2⟩
   let res := Signer.sign Signer.repaired n.signer h r 1
@@ -199,6 +196,8 @@ def decideProposal (n : Node) (h r : Int) : Node :=
   match n.me with
   | some i =>
     if res.2.isReleased then
+      let n := if n.lockedBlock.isNone then
+                 { n with fresh := n.fresh + 1, validTab := n.validTab ++ [(own, n.height, true)] } else n
       { n with signer := res.1, queue := n.queue ++ [.proposal p i false, .parts n.height n.round block] }
     else { n with signer := res.1 }
   | none => { n with signer := res.1 }
